@@ -490,6 +490,16 @@ func TestVerifC03(t *testing.T) {
 		rep.Distinct++
 	}
 
+	// ---- A8 (real time; the forced schedule of C18's A2 on behalf of this property): "by read timeout" - the reader clears the
+	// read deadline for the response that emptied the connection while the next request is being sent; the server then
+	// stays silent. That request is outstanding over a connection that has failed (it no longer answers): it is completed
+	// with a connection-level error when the read timeout passes, not left waiting.
+	for _, batched := range []bool{false, true} {
+		rcClearRacesWithSend(fmt.Sprintf("A8/read-timeout-armed-for-a-request-sent-while-the-reader-clears-the-deadline/batched=%v", batched), batched, rep, o,
+			"request-left-waiting:no-read-timeout")
+		rep.Distinct++
+	}
+
 	// ---- B: k-th operation fails
 	flavours := []string{"w0", "whalf", "eof", "reset", "deadline", "deadline-soft", "close"}
 	for wi, w := range c03workloads {
